@@ -258,6 +258,24 @@ def _sparse_case(sh, cI, cells, perm, collect=False, offset=0.0):
         sh.violation("sparse_localmaxlabel:count", case, {"returned": labs[0][0], "expected": n_want, "labels": labs[0][1]})
     elif not np.array_equal(O.canon_labels(labs[0][1]), O.canon_labels(want)) or (labs[0][1] <= 0).any():
         sh.violation("sparse_localmaxlabel:partition", case, {"labels": labs[0][1], "expected": want})
+    if len(cells) >= 3 and offset == 0.0 and not sh.violations:
+        # the python wrapper on a frame OBJECT, asked again after the frame changed: the labelling is that of the pixels it holds now -
+        # (a) a sub-frame cut out with mask() (the middle pixel of the list dropped), (b) the intensities reversed in place
+        from ImageD11 import sparseframe as sf
+        fr = sf.sparse_frame(ii.copy(), jj.copy(), (3, 3), itype=np.uint16, pixels={"intensity": v.copy()})
+        n0 = sf.sparse_localmax(fr)
+        keep = np.ones(len(v), bool); keep[len(v) // 2] = False
+        sub = fr.mask(keep)
+        ns_ = sf.sparse_localmax(sub)
+        w_sub, n_sub = sparse_oracle(ii[keep], jj[keep], v[keep])
+        if n0 != n_want or ns_ != n_sub or not np.array_equal(O.canon_labels(sub.pixels["localmax"]), O.canon_labels(w_sub)):
+            sh.violation("sparse_localmax[history: label, mask(), label the sub-frame]:partition", case, {"n": int(ns_), "expected_n": int(n_sub)})
+        else:
+            fr.pixels["intensity"][:] = v[::-1]
+            nr = sf.sparse_localmax(fr)
+            w_r, n_r = sparse_oracle(ii, jj, v[::-1].copy())
+            if nr != n_r or not np.array_equal(O.canon_labels(fr.pixels["localmax"]), O.canon_labels(w_r)):
+                sh.violation("sparse_localmax[history: label, intensities changed in place, label]:partition", case, {"n": int(nr), "expected_n": int(n_r)})
     sh.evaluations += 1
     if n_want >= 2:
         sh.nontrivial += 1
